@@ -24,9 +24,19 @@ pub struct FaultCfg {
     pub stall_permille: u64,
     pub byz_permille: u64,
     pub client_timeout: u64,
+    /// simulated real time per tick, in nanoseconds (0: 1 ms; see `tick_len_ns`)
+    pub tick_ns: u64,
 }
 
 impl FaultCfg {
+    /// how much real time passes per tick of the world, as the code under test would see it on a clock
+    pub fn tick_len_ns(&self) -> u64 {
+        if self.tick_ns == 0 {
+            1_000_000
+        } else {
+            self.tick_ns
+        }
+    }
     pub fn any_fault(&self) -> bool {
         self.err_permille > 0
             || self.err_at_call.is_some()
@@ -37,7 +47,7 @@ impl FaultCfg {
     }
     pub fn describe(&self) -> String {
         format!(
-            "lat<={} err={}‰{:?} err_at={:?} stale={}‰ churn={}‰ stall={}‰ byz={}‰ timeout={}",
+            "lat<={} err={}‰{:?} err_at={:?} stale={}‰ churn={}‰ stall={}‰ byz={}‰ timeout={} tick={}ns",
             self.lat_max,
             self.err_permille,
             self.err_window,
@@ -46,7 +56,8 @@ impl FaultCfg {
             self.churn_permille,
             self.stall_permille,
             self.byz_permille,
-            self.client_timeout
+            self.client_timeout,
+            self.tick_len_ns()
         )
     }
 }
